@@ -5,6 +5,7 @@ one ServerApp and one ScriptedClient per session, runs the kernel to the
 horizon and returns everything the oracles need.
 """
 import asyncio
+import sys
 import urllib.parse
 
 from . import kernel as K
@@ -43,6 +44,15 @@ class ServerApp:
             server.on('connect', self._connect)
             server.on('message', self._message)
             server.on('disconnect', self._disconnect)
+        if self.opts.get('legacy_disconnect'):
+            # an application written before disconnect handlers were given a
+            # reason: the server finds out by TypeError and calls again
+            # without it
+            if world.impl == 'asyncio' and self.opts.get(
+                    'coroutine_handlers', True):
+                server.on('disconnect', self._a_disconnect1)
+            else:
+                server.on('disconnect', self._disconnect1)
 
     # -- shared bodies -----------------------------------------------------
     def _rec(self, ev, sid, arg):
@@ -161,6 +171,26 @@ class ServerApp:
         finally:
             rec['seq_end'] = self.k.seq
             rec['t_end'] = self.k.now
+
+    @staticmethod
+    def _legacy_reason(sid):
+        # (the reason the server would have passed: read from its frame, the
+        # handler itself is not told)
+        fr = sys._getframe(2)
+        for _ in range(5):
+            if fr is None:
+                break
+            a = fr.f_locals.get('args')
+            if isinstance(a, tuple) and len(a) == 2 and a[0] == sid:
+                return a[1]
+            fr = fr.f_back
+        return None
+
+    def _disconnect1(self, sid):
+        return self._disconnect(sid, self._legacy_reason(sid))
+
+    async def _a_disconnect1(self, sid):
+        return await self._a_disconnect(sid, self._legacy_reason(sid))
 
     def _apply_sync(self, f, sid, rec):
         act = f.get('action')
